@@ -39,8 +39,66 @@ func callName(ci ssa.CallInstruction) string {
 		if f, ok := v.Fn.(*ssa.Function); ok {
 			return shortName(f.String())
 		}
+	case *ssa.UnOp:
+		// a package-level function variable that only its initialiser assigns (var intn = rand.Intn): the
+		// function it names
+		if f := initOnlyFuncVar(v); f != nil {
+			return shortName(f.String())
+		}
 	}
 	return "dynamic"
+}
+
+var funcVarCache = map[*ssa.Global]*ssa.Function{}
+
+func initOnlyFuncVar(ld *ssa.UnOp) *ssa.Function {
+	if ld.Op != token.MUL {
+		return nil
+	}
+	g, ok := ld.X.(*ssa.Global)
+	if !ok || g.Pkg == nil {
+		return nil
+	}
+	if f, had := funcVarCache[g]; had {
+		return f
+	}
+	var fn *ssa.Function
+	n, bad := 0, false
+	for _, m := range g.Pkg.Members {
+		mf, ok := m.(*ssa.Function)
+		if !ok {
+			continue
+		}
+		for _, f := range withClosures(mf) {
+			instrsOf(f, func(in ssa.Instruction) {
+				// any other use of the variable's address than a load (a store, or handing it out) could change it
+				for _, op := range in.Operands(nil) {
+					if *op != ssa.Value(g) {
+						continue
+					}
+					switch x := in.(type) {
+					case *ssa.UnOp:
+					case *ssa.Store:
+						if x.Addr == ssa.Value(g) && mf.Name() == "init" {
+							if sf, isF := x.Val.(*ssa.Function); isF {
+								fn = sf
+								n++
+								continue
+							}
+						}
+						bad = true
+					default:
+						bad = true
+					}
+				}
+			})
+		}
+	}
+	if bad || n != 1 {
+		fn = nil
+	}
+	funcVarCache[g] = fn
+	return fn
 }
 
 func staticCallee(ci ssa.CallInstruction) *ssa.Function {
